@@ -860,6 +860,26 @@ def _enclosing_loops(node):
     return out
 
 
+def _r815(ctx):
+    from . import c03 as _c03c
+    from .shared import RuleProxy as _RP8b
+
+    class _Quiet:
+        tree = ctx.tree
+
+        def ok(self, *a, **k):
+            pass
+
+        def bad(self, *a, **k):
+            pass
+
+        def note(self, *a, **k):
+            pass
+
+    acq_funcs, _rel = _c03c.r31_32(_Quiet())
+    _c03c.r33(_RP8b(ctx, "R-8.15", " (after a restart the [0-] half of a re-issued zero swap is not held: when the job completes the release asserts and the main process dies, at every later restart again)"), acq_funcs)
+
+
 def run(ctx):
     ctx.rule("R-8.7", "one ensemble-index unit per store: self.locked entries offset-removed, restart.toml's locked and lock()/swap() indices in state-matrix rows", floor=4)
     ctx.rule("R-8.8", "the commit is final: nothing restart.toml serialises is modified after write_toml within the step", floor=1)
@@ -883,6 +903,8 @@ def run(ctx):
     ctx.attempt(r812, ctx)
     ctx.rule("R-8.13", "the in-flight record that restart.toml saves pairs ensembles and path numbers position by position (built from the sequence zipped with the ensembles when the job is assembled)", floor=2)
     ctx.attempt(r813, ctx)
+    ctx.rule("R-8.15", "a re-issued job holds every ensemble it names: issuers acquire each ensemble they hand out on every path (shared with C03 R-3.3)", floor=6)
+    ctx.attempt(_r815, ctx)
     ctx.rule("R-8.14", "a finished job leaves the in-flight record that restart.toml saves: one representation of path numbers at every filling site and at the membership test that removes the record (shared with C03 R-3.8)", floor=3)
     from . import c03 as _c03b
     from .shared import RuleProxy as _RP8
@@ -898,6 +920,7 @@ def run(ctx):
 
 
 VARIANTS = [
+    B("c08-reissue-locks-last-ensemble-only", REPEX, "            self.swap(traj_idx, ens)\n            self.lock(ens)\n", "            self.swap(traj_idx, ens)\n", "R-8.15", control=True, also=[(REPEX, "        # the re-issued job is in flight again: keep it in the record that\n", "        self.lock(ens)\n        # the re-issued job is in flight again: keep it in the record that\n")], why="seeded C08_m"),
     B("c08-delete-queue-filled-for-rejected-moves", REPEX, "                    # keep delete list:\n                    if len(self.pn_olds) <= self.n - 2:\n                        self.pn_olds[str(pn_old)] = {\n                            \"adress\": self.traj_data[pn_old][\"adress\"],\n                        }\n", "", "R-8.3", control=True, also=[(REPEX, "            pn_news.append(out_traj.path_number)\n", "            if self.config[\"output\"].get(\"delete_old\", False) and pn_old > self.n - 2:\n                if len(self.pn_olds) <= self.n - 2:\n                    self.pn_olds[str(pn_old)] = {\"adress\": self.traj_data[pn_old][\"adress\"]}\n            pn_news.append(out_traj.path_number)\n")], why="seeded C14_l"),
     B("c08-reissue-recorded-as-int", REPEX, "        self.locked.append((enss, trajs0))\n", "        self.locked.append((enss, [i.path_number for i in trajs]))\n", "R-8.14", control=True, why="seeded C08_l (= C06_e)"),
     B("c08-record-in-pick-order", REPEX, "        pat_nums = [str(i.path_number) for i in inp_trajs]\n", "        pat_nums = [str(traj.path_number)]\n        if len(inp_trajs) > 1:\n            pat_nums.append(str(other_traj.path_number))\n", "R-8.13", why="seeded C08_j"),
